@@ -34,10 +34,10 @@ CLAIMED = {
  "C04": P("Scheme x obfuscation x link-syntax table plus generated documents: every href/src, read the way a browser reads it, is not javascript/vbscript/file/data (image whitelist excepted); normalize_link/validate_link unit correspondence; model/implementation correspondence." + PENDING % "C04", "DESIGN.md section 6 C04", category="exploration", technique=TECH_X),
  "C05": P("Range oracle (validity, boundaries, root, nesting, sibling order, faithful Text/TextSpecial) on every node of generated documents biased to tabs, multi-byte text, CR/CRLF and nested inline content; model/implementation correspondence on every range." + PENDING % "C05", "DESIGN.md section 6 C05", category="exploration", technique=TECH_X),
  "C06": P("Metamorphic relations on tab-free documents: '> '-prefixing gives the blockquote wrapper and shifts every range by the inserted bytes; placing D in a loose list item gives the list wrapper; model/implementation correspondence on all three parses." + PENDING % "C06", "DESIGN.md section 6 C06", category="exploration", technique=TECH_X),
- "C07": P("Histories of 2..12 documents on one parser instance vs fresh instances (tree, HTML, XHTML), including documents built to poison caches (reference definitions, backtick runs, huge bracket spans, low-byte colliding characters); the model threads the parser's cache state explicitly; correspondence on histories." + PENDING % "C07", "DESIGN.md section 6 C07", category="exploration", technique=TECH_X),
- "C08": P("Histories of add/remove/has_rule/Debug/parse calls vs the same history with intermediate parses deleted, at MarkdownIt level (block, inline incl. letter/punctuation markers, core rules) and at Ruler level (aliases, constraints); the model's Ruler and InlineParser carry their OnceCell caches as state; correspondence on histories." + PENDING % "C08", "DESIGN.md section 6 C08", category="exploration", technique=TECH_X),
+ "C07": P("Machine-checked Coq proofs over the whole-parser model in which the parser's interior-mutable caches (compiled chain of the three rulers, lazily chosen text scanner) are explicit state and all per-document state is created inside parse: a parser with warm caches returns what the same configuration with cold caches returns and keeps configuration and cache coherence; hence for every configuration history and every sequence of documents already parsed, the next parse returns exactly what a freshly built parser with the same configuration returns (unbounded in number and size of documents). Tied to /repo on every run by histories of 2..12 documents on one instance vs fresh instances (tree, HTML, XHTML; documents built to poison caches: reference definitions/look-ups, backtick runs, huge bracket spans, low-byte colliding characters) and by the model/implementation correspondence on those histories.", "DESIGN.md section 6 C07"),
+ "C08": P('Machine-checked Coq proofs: every configuration call of the model (21 plugin adds incl. the emphasis/link bookkeeping in md.env, rule removal for block/inline/core rules, nesting limit) is determined by the configuration of its argument and leaves the caches coherent; therefore deleting the parse calls from any history of adds, removes and parses does not change what the next parse returns; the same for one Ruler (any adds with builder calls, removes, interleaved iter/Debug). Tied to /repo on every run by full-vs-erased histories at MarkdownIt level (random and exhaustive short histories per rule, letter- and punctuation-marker custom rules) and Ruler level, has_rule / Debug outcomes, and the model/implementation correspondence on every history.', "DESIGN.md section 6 C08"),
  "C09": P("Random rule sets (aliases, duplicate marks/constraints, absent and own marks, priorities): an independent oracle recomputes edges, requirement check, stable priority partition and the greedy order and demands permutation, every edge respected, order = greedy order, panic iff missing requirement or no admissible order, same result on reuse; the Coq model follows compile() statement by statement and is compared on every script." + PENDING % "C09", "DESIGN.md section 6 C09", category="exploration", technique=TECH_X),
- "C10": P("Metamorphic relations LF->CRLF, LF->CR and appended final newline on CR-free documents under random plugin sets: identical HTML; in the model the parser proper receives only line texts (split_lines), so the relation reduces to the splitter; correspondence on all variants." + PENDING % "C10", "DESIGN.md section 6 C10", category="exploration", technique=TECH_X),
+ "C10": P('Machine-checked Coq proofs over the whole-parser model: the block parser receives only the list of line texts (source positions are symbolic), the line texts are invariant under LF->CRLF, LF->CR (CR-free input) and one appended final LF (input not ending in a line ending), and the core chain reads the source through them only unless the source-position rule runs; hence for every configuration without that rule, every fuel and every input the HTML/XHTML (or error) is unchanged by the three transformations. With the source-position plugin the statement is not proved (checked by oracle). Tied to /repo on every run by the metamorphic relations on generated documents, spec inputs and constructs left open at end of input under random plugin sets, and by the model/implementation correspondence on all variants.', "DESIGN.md section 6 C10"),
  "C11": P("Payload x {fence, four-space indent, backtick span} x {top level, block quote, list item}: content field and escaped HTML equal the payload; cutws/indent unit correspondence for the tab-stop arithmetic; model/implementation correspondence." + PENDING % "C11", "DESIGN.md section 6 C11", category="exploration", technique=TECH_X),
  "C12": P("Every named reference of the implementation's table (thorough tier), numeric references over boundary/invalid code points and all 32 escapes in five contexts: decoded characters agree; escape-everything round trip on random printable lines; unescape_all / entity / code-point validity unit correspondence." + PENDING % "C12", "DESIGN.md section 6 C12", category="exploration", technique=TECH_X),
  "C13": P("Label pairs related by case and whitespace variants x use forms x definition placement x multiplicity: resolves iff equal under full case folding + whitespace collapsing, first definition wins, definitions produce no output; normalize_reference unit correspondence (tables dumped from the implementation)." + PENDING % "C13", "DESIGN.md section 6 C13", category="exploration", technique=TECH_X),
